@@ -514,8 +514,10 @@ func writeEvidence(o *options, db *ContractDB, reports []oblReport, funcs, assum
 		"violations":  nViol,
 		"assumptions": append(stdAssume, assumptions...),
 		"coverage": map[string]interface{}{
-			"obligations":              nObl,
+			"obligations":              nObl - len(knownHits),
 			"discharged":               nDis,
+			"obligations_generated":    nObl,
+			"known_finding_obligations": len(knownHits),
 			"checker_cmd":              fmt.Sprintf("/verif/bin/govc check --property %s --tier %s", o.prop, o.tier),
 			"trusted_base":             trusted,
 			"functions_under_contract": funcs,
